@@ -17,7 +17,7 @@ ASSUMPTIONS = [
 ]
 BOUNDS = {"quick": "6 URI modes + 4 realm patterns + custom-attribute pattern: language inclusion both ways vs the WAMP grammar, witnesses <= 12 chars; ids over -2^64..2^64; 25 classes x every list position x every option key x 17 replacement values; envelope: 9 structures x free type code; codec raising 6 exception types x 4 serializers",
           "thorough": "witness length <= 20; two simultaneous mutations for id/URI slots"}
-EXPECT_COVERS = ["typecode:accepted", "typecode:rejected", "uri:code-subset-of-spec", "uri:spec-subset-of-code", "uri:dispatch", "id:range", "parse:accepted", "parse:ProtocolError", "envelope", "codec-raises"]
+EXPECT_COVERS = ["history", "typecode:accepted", "typecode:rejected", "uri:code-subset-of-spec", "uri:spec-subset-of-code", "uri:dispatch", "id:range", "parse:accepted", "parse:ProtocolError", "envelope", "codec-raises"]
 BUDGET = {"quick": dict(wall_s=300, max_paths=20000, diff_samples=2), "thorough": dict(wall_s=2400, diff_samples=2)}
 
 MODES = {  # (strict, allow_empty_components, allow_last_empty) -> pattern attribute
@@ -86,6 +86,13 @@ def uri_grammar(sx, strict, empty, last_empty, maxlen):
             if st == "sat":
                 w = rex.z3_unescape(w)
                 sx.check(real_accepts(w) == want, "uri-judged-by-the-grammar-of-the-requested-mode", info=dict(info, witness=w, other=other, want=want))
+                # ... whatever was validated before: the same string judged under the other mode first (an earlier message of the
+                # connection where it is legal / illegal), then again under this mode
+                try:
+                    message.check_or_raise_uri(w, strict=other[0], allow_empty_components=other[1], allow_last_empty=other[2])
+                except InvalidUriError:
+                    pass
+                sx.check(real_accepts(w) == want, "uri-verdict-independent-of-earlier-validations", info=dict(info, witness=w, other=other, want=want))
     sx.cover("uri:dispatch")
     # non-strings and None
     for v in (None, 1, b"com.a", ["com"], 1.5, True):
@@ -459,6 +466,38 @@ def real_bytes(sx, ser_id, which):
     return [ser_id, which]
 
 
+HISTORIES = [
+    # (message where the URI is legal, message where the same string is not)
+    ([32, 1, {"match": "wildcard"}, "com.myapp..update"], [16, 2, {}, "com.myapp..update"]),
+    ([64, 3, {"match": "prefix"}, "com.myapp.sensors."], [48, 4, {}, "com.myapp.sensors."]),
+    ([32, 5, {"match": "prefix"}, "com.myapp."], [64, 6, {}, "com.myapp."]),
+    ([64, 7, {"match": "wildcard"}, ".myapp.proc"], [8, 48, 8, {}, ".myapp.proc"]),
+    ([32, 9, {"match": "wildcard"}, "com..x"], [6, {}, "com..x"]),
+    ([64, 10, {"match": "prefix"}, "a.b."], [3, {}, "a.b."]),
+]
+
+
+def history(sx, k, order):
+    """the verdict on a message does not depend on the messages parsed before it (a validator that remembers what it has accepted)"""
+    from autobahn.wamp import serializer
+    from autobahn.wamp.exception import ProtocolError, InvalidUriError
+    legal, illegal = HISTORIES[k]
+    seq = {"legal-first": [legal, illegal, legal], "illegal-first": [illegal, legal, illegal]}[order]
+    for raw in seq:
+        cls = serializer.Serializer.MESSAGE_TYPE_MAP[raw[0]]
+        try:
+            cls.parse(list(raw))
+            got = "accepted"
+        except (ProtocolError, InvalidUriError):
+            got = "ProtocolError"
+        except Exception as e:  # noqa
+            got = type(e).__name__
+        want = "accepted" if raw is legal else "ProtocolError"
+        sx.check(got == want, "verdict-independent-of-earlier-messages", info=dict(raw=repr(raw), got=got, want=want, order=order))
+    sx.cover("history")
+    return [k, order]
+
+
 def units(tier):
     U = []
     q = tier == "quick"
@@ -469,6 +508,9 @@ def units(tier):
     for w in ("_URI_PAT_REALM_NAME", "_URI_PAT_REALM_NAME_ETH", "_URI_PAT_REALM_NAME_ENS", "_URI_PAT_REALM_NAME_ENS_REVERSE", "_CUSTOM_ATTRIBUTE"):
         U.append(("pat/" + w, "other_patterns", dict(which=w, maxlen=ml), dict(weight=8)))
     U.append(("ids", "ids", dict()))
+    for k in range(len(HISTORIES)):
+        for order in ("legal-first", "illegal-first"):
+            U.append(("history/%d/%s" % (k, order), "history", dict(k=k, order=order)))
     for cname in sorted(msglib.classes()):
         for slot in ("positions", "options"):
             U.append(("mut/%s/%s" % (cname, slot), "mutate", dict(cname=cname, slot=slot), dict(weight=3)))
